@@ -78,8 +78,27 @@ def fit(prog: Program, res: Result) -> None:
         if isinstance(n, ast.If) and ast.unparse(n.test).replace(" ", "") in ("normX==0", "0==normX"):
             k += 1
             keep = ("iprod", "normX", "fit", "normresidual", "M")
-            zero = {a.targets[0].id: fi.resolve(a.value, keep=keep) for a in n.body if isinstance(a, ast.Assign) and isinstance(a.targets[0], ast.Name)}
-            nonz = {a.targets[0].id: fi.resolve(a.value, keep=keep) for a in n.orelse if isinstance(a, ast.Assign) and isinstance(a.targets[0], ast.Name)}
+            def branch_defs(stmts):
+                """name -> value at the end of the branch, with the branch's own earlier bindings substituted (t = e; fit = 1 - t / nX)."""
+                import copy as _copy
+                env = {}
+
+                class Sub(ast.NodeTransformer):
+                    def visit_Name(self, x):
+                        if isinstance(x.ctx, ast.Load) and x.id in env and x.id not in keep:
+                            return _copy.deepcopy(env[x.id])
+                        return x
+                for a in stmts:
+                    if isinstance(a, ast.Assign) and len(a.targets) == 1 and isinstance(a.targets[0], ast.Name):
+                        env[a.targets[0].id] = Sub().visit(fi.resolve(a.value, keep=keep))
+                    elif isinstance(a, ast.Assign) and len(a.targets) == 1 and isinstance(a.targets[0], ast.Tuple) and isinstance(a.value, ast.Tuple) \
+                            and len(a.targets[0].elts) == len(a.value.elts):
+                        vals = [Sub().visit(fi.resolve(v, keep=keep)) for v in a.value.elts]
+                        for t_, v_ in zip(a.targets[0].elts, vals):
+                            if isinstance(t_, ast.Name):
+                                env[t_.id] = v_
+                return env
+            zero, nonz = branch_defs(n.body), branch_defs(n.orelse)
             import re as _re
             ipx = "iprod" if _re.search(r"(?<![A-Za-z0-9_])iprod(?![A-Za-z0-9_])", ast.unparse(n)) else "input_tensor.innerprod(M)"
             if ipx != "iprod" and not any("innerprod" in ast.unparse(v) for v in list(zero.values()) + list(nonz.values())):
